@@ -22,7 +22,8 @@ BOUNDS = {
     'thorough': 'plus a sibling output in the same new directory (reservation counting) and two prefixes',
 }
 ASSUMPTIONS = ['an over-long directory component is modelled by making mkdir of that directory raise OSError(ENAMETOOLONG); an over-long '
-               'target file name is a real 256-character name (the model file system enforces NAME_MAX like the kernel)']
+               'target file name is a real 256-character name (the model file system enforces NAME_MAX like the kernel); a target name '
+               'with an embedded NUL byte makes every model os call raise ValueError, as CPython does']
 WITNESSES = {'quick': ['success', 'user-failure', 'mkdir-fault', 'stale-target', 'long-name-target'], 'thorough': ['success', 'mkdir-fault']}
 
 CHAIN = ['a', 'a/b', 'a/b/c', 'a/b/c/t']
@@ -39,6 +40,7 @@ def families(tier):
         {'name': 'fresh', 'params': {'target': 'a/t', 'modes': MODES, 'faults': [None, 'a']}, 'weight': 1},
         # the target's own file name is over-long (every stat / open of it fails with ENAMETOOLONG)
         {'name': 'fresh', 'params': {'target': 'a/b/c/t', 'long_name': True, 'modes': MODES, 'faults': [None]}, 'weight': 1},
+        {'name': 'fresh', 'params': {'target': 'a/b/c/t', 'nul_name': True, 'modes': ['ok', 'no_create', 'raise_before', 'raise_after'], 'faults': [None]}, 'weight': 1},
         {'name': 'stale', 'params': {'target': 'a/b/c/t', 'long_name': True, 'old_targets': ['a/b/c/t', 'a/b'], 'modes': ['ok', 'no_create', 'raise_before'],
                                      'faults': [None], 'mut_kinds': ['none']}, 'weight': 1},
         {'name': 'stale', 'params': {'target': 'a/b/c/t', 'modes': MODES, 'faults': [None, 'a/b/c']}, 'weight': 3},
@@ -159,6 +161,10 @@ def harness(eng, fam, P):
     target = P['target']
     if P.get('long_name'):
         target = posixpath.dirname(target) + '/' + LONG
+    if P.get('nul_name'):
+        # a file name with an embedded NUL byte: every os call on it raises ValueError (not OSError)
+        target = posixpath.dirname(target) + '/t\0x'
+        P = dict(P, long_name=True)
     mode = P['modes'][eng.choose('mode', len(P['modes']))]
     fault = P['faults'][eng.choose('fault', len(P['faults']))]
     how = SPELL[eng.choose('spell', len(SPELL))]
